@@ -44,7 +44,23 @@ func main() {
 	noEvidence := flag.Bool("no-evidence", false, "do not write evidence/replay files (self-test child runs)")
 	list := flag.Bool("list", false, "list rule instances of the property")
 	selftest := flag.Bool("selftest", false, "also run the self-test catalogue of the property (implied by -tier thorough)")
+	renameIn := flag.String("rename-locals", "", "development aid: rename every local variable of the scratch copy at this directory (see benign.go)")
+	benignKind := flag.String("benign", "", "development aid: with -rename-locals <dir>, apply this statement-level rewrite instead (incdec, opassign, vardecl, elsehoist)")
 	flag.Parse()
+	if *renameIn != "" && *benignKind != "" {
+		if err := benignRewrite(*renameIn, *benignKind); err != nil {
+			fmt.Fprintln(os.Stderr, err)
+			os.Exit(2)
+		}
+		return
+	}
+	if *renameIn != "" {
+		if err := renameLocals(*renameIn, "zq"); err != nil {
+			fmt.Fprintln(os.Stderr, err)
+			os.Exit(2)
+		}
+		return
+	}
 
 	if *repo != "" {
 		repoDir = *repo
